@@ -177,6 +177,11 @@ func (r *Raft) onAppendEntriesRequest(req *appendReq, c *conn) (rpcResult, error
 			return drain(prevTermMismatch, nil)
 		}
 
+		// a success reply tells the leader that everything up to prevLogIndex
+		// is stored here: that must include entries which this node appended
+		// while it was leader and has not flushed yet
+		r.storage.commitLog(req.prevLogIndex)
+
 		// valid req: can we commit req.prevLogIndex ?
 		if r.canCommit(req, req.prevLogIndex, req.prevLogTerm) {
 			r.setCommitIndex(req.prevLogIndex)
@@ -220,6 +225,7 @@ func (r *Raft) onAppendEntriesRequest(req *appendReq, c *conn) (rpcResult, error
 			me := &entry{}
 			r.storage.mustGetEntry(ne.index, me)
 			if me.term == ne.term {
+				syncLog = true // acknowledged below like a new entry: make sure it is flushed
 				continue
 			}
 
